@@ -366,7 +366,10 @@ def run_trace(cfg, ops):
                     line['choice'] = kj(k); out = dict(o='pair', k=kcanon(k), v=vals(v))
                 elif kind == 'popkeys':
                     line.update(ks=[kj(k) for k in op[2]], d=vals(op[3]) if len(op) > 3 else None)
-                    out = dict(o='vlist', v=[vals(v) for v in H.popkeys(list(op[2]), *op[3:])])
+                    # the keys arrive as a list, a tuple, a list iterator or a generator (any iterable of keys is "the specified keys")
+                    shape = (len(op[2]) + len(op)) % 4
+                    karg = [list, tuple, iter, lambda ks_: (k_ for k_ in ks_)][shape](list(op[2]))
+                    out = dict(o='vlist', v=[vals(v) for v in H.popkeys(karg, *op[3:])])
                 elif kind == 'setdefault':
                     line.update(k=kj(op[2]), d=vals(op[3]) if len(op) > 3 else 0)
                     out = dict(o='val', v=vals(H.setdefault(op[2], *op[3:])))
